@@ -356,11 +356,11 @@ type JParam struct {
 // JReturn is one return site: inside `if (Cond) { return Expr; }` when Cond != "", the
 // closing return of the body otherwise.
 type JStmt struct {
-	Kind string `json:"kind"`           // "ifreturn", "ifelse", "filler", "forreturn", "whilereturn", "tryreturn", "switchreturn"
-	Cond string `json:"cond,omitempty"` // condition text
-	Expr string `json:"expr,omitempty"` // expression kind of the (first) return
-	Else string `json:"else,omitempty"` // expression kind of the else-branch return (ifelse)
-	Text string `json:"text,omitempty"` // filler statement text
+	Kind string `json:"kind"`           // "ifreturn", "ifelse", "filler", "forreturn", "whilereturn", "tryreturn", "switchreturn", "lambda"
+	Cond string `json:"cond,omitempty"` // condition text; for a lambda: the form of its body ("block", "ifblock", "expr")
+	Expr string `json:"expr,omitempty"` // expression kind of the (first) return; for a lambda: of the lambda's (first) return
+	Else string `json:"else,omitempty"` // expression kind of the else-branch return (ifelse); for a lambda: of its closing return (ifblock)
+	Text string `json:"text,omitempty"` // filler statement text (%d = number of the statement); for a lambda: how its parameter is written ("", "s", "(String s)")
 	Bare bool   `json:"bare,omitempty"` // no braces around the return
 }
 
@@ -383,6 +383,7 @@ type JClass struct {
 	Name    string    `json:"name"`
 	Mods    []string  `json:"mods"`
 	Methods []JMethod `json:"methods"`
+	After   []string  `json:"after,omitempty"` // other members written after the last method
 }
 
 type EvalCase struct {
@@ -416,7 +417,79 @@ var (
 	otherMembers = []string{"private int extra%d;", "@Nullable private String extra%d;", "@CheckForNull private static Object extra%d;", "private static int extra%d = 0;",
 		"static { count = %d; }", "private String extra%d = null;", "{ value = null; }", "private static final String extra%d = \"null\";"}
 	loopKinds = []string{"forreturn", "whilereturn", "tryreturn", "switchreturn"}
+	// statements that handle the null literal without returning it, and an annotated local
+	// variable; %d is replaced by the number of the statement (local names stay unique)
+	nullFillers = []string{"value = null;", "Object tmp%d = null;", "@Nullable Object tmp%d = value;", "if (value == null) { value = \"w\"; }"}
+	// Members that hold a lambda: the returns of a lambda are not returns of any method of the
+	// class. LAMBDA / TYPE are replaced by the text and the functional-interface type of the
+	// lambda, %d by a number unique in the class.
+	lambdaHolders = []string{"private TYPE extra%d = LAMBDA;", "private static final TYPE extra%d = LAMBDA;", "@Nullable private TYPE extra%d = LAMBDA;",
+		"{ TYPE local = LAMBDA; }", "static { TYPE local = LAMBDA; count = %d; }"}
+	lambdaForms  = []string{"block", "block", "ifblock", "expr"}
+	lambdaParams = []string{"", "", "s", "(String s)"}
 )
+
+// lambdaSrc gives the functional-interface type and the text of a lambda whose body has the
+// given form and whose parameter is written as param: `() -> { return E; }`,
+// `s -> { if (flag) { return E; } return E2; }`, `(String s) -> E`.
+func lambdaSrc(form, param, expr, other string) (typ, text string) {
+	typ, head := "java.util.function.Supplier<String>", "()"
+	if param != "" {
+		typ, head = "java.util.function.Function<String, String>", param
+	}
+	switch form {
+	case "block":
+		return typ, head + " -> { " + returnText(expr) + " }"
+	case "ifblock":
+		return typ, head + " -> { if (flag) { " + returnText(expr) + " } " + returnText(other) + " }"
+	case "expr":
+		return typ, head + " -> " + exprText(expr)
+	}
+	panic("unknown lambda form " + form)
+}
+
+// lambdaGen draws a lambda returning a String: form, parameter style and the expression kinds of
+// its returns (all kinds a String method can return, null included).
+func lambdaGen(t *rapid.T) JStmt {
+	s := JStmt{Kind: "lambda", Cond: rapid.SampledFrom(lambdaForms).Draw(t, "lambdaForm"), Text: rapid.SampledFrom(lambdaParams).Draw(t, "lambdaParam")}
+	s.Expr = retExpr(t, "String")
+	if s.Cond == "ifblock" {
+		s.Else = retExpr(t, "String")
+	}
+	return s
+}
+
+// lambdaReturnsNull: the lambda (not the method or class around it) can return the null literal.
+func lambdaReturnsNull(s JStmt) bool { return nullKinds[s.Expr] || nullKinds[s.Else] }
+
+// memberGen draws one member that is not a method: a field or an initialiser block from
+// otherMembers (low draws), or a field / initialiser block holding a lambda.
+var memberGen = rapid.Custom(func(t *rapid.T) string {
+	k := rapid.IntRange(0, len(otherMembers)+len(lambdaHolders)-1).Draw(t, "member")
+	if k < len(otherMembers) {
+		return otherMembers[k]
+	}
+	typ, text := lambdaText(lambdaGen(t))
+	return strings.NewReplacer("TYPE", typ, "LAMBDA", text).Replace(lambdaHolders[k-len(otherMembers)])
+})
+
+func lambdaText(s JStmt) (string, string) { return lambdaSrc(s.Cond, s.Text, s.Expr, s.Else) }
+
+// memberHasLambda / memberLambdaReturnsNull classify the text of a member (evidence labels only).
+func memberHasLambda(text string) bool { return strings.Contains(text, " -> ") }
+
+func memberLambdaReturnsNull(text string) bool {
+	i := strings.Index(text, " -> ")
+	if i < 0 {
+		return false
+	}
+	for k := range nullKinds {
+		if e := exprText(k); strings.Contains(text[i:], "return "+e+";") || strings.HasPrefix(text[i:], " -> "+e+";") {
+			return true
+		}
+	}
+	return false
+}
 
 func permute(t *rapid.T, in []string, label string) []string {
 	out := append([]string{}, in...)
@@ -433,9 +506,24 @@ func permute(t *rapid.T, in []string, label string) []string {
 // shrinking moves towards the plain variant.
 func stmtGen(ret string) *rapid.Generator[JStmt] {
 	return rapid.Custom(func(t *rapid.T) JStmt {
-		k := rapid.IntRange(0, 5).Draw(t, "stmt")
+		k := rapid.IntRange(0, 7).Draw(t, "stmt")
 		if k < 2 {
 			return JStmt{Kind: "filler", Text: rapid.SampledFrom(fillers).Draw(t, "filler")}
+		}
+		if k == 6 {
+			// the null literal in a statement that is not a return; an annotated local variable
+			return JStmt{Kind: "filler", Text: rapid.SampledFrom(nullFillers).Draw(t, "nullFiller")}
+		}
+		if k == 7 {
+			// a local variable initialised with a lambda: the lambda's returns are not the method's
+			s := lambdaGen(t)
+			if lambdaReturnsNull(s) && pbt.Excluded("lambda_in_method_returns_null") {
+				s.Expr, s.Else = "lit", ""
+				if s.Cond == "ifblock" {
+					s.Else = "field"
+				}
+			}
+			return s
 		}
 		if k == 5 {
 			// a return inside a loop, a catch clause or a switch group: still "on some path"
@@ -578,16 +666,19 @@ func classGen(layout string) *rapid.Generator[JClass] {
 		}
 		// fields and initialiser blocks between the methods
 		extra := 0
-		for j := range cl.Methods {
-			for _, k := range rapid.SliceOfN(rapid.IntRange(0, len(otherMembers)-1), 0, 2).Draw(t, "membersBefore") {
+		number := func(texts []string) []string {
+			var out []string
+			for _, text := range texts {
 				extra++
-				text := otherMembers[k]
-				if strings.Contains(text, "%d") {
-					text = fmt.Sprintf(text, extra)
-				}
-				cl.Methods[j].Before = append(cl.Methods[j].Before, text)
+				out = append(out, strings.ReplaceAll(text, "%d", fmt.Sprint(extra)))
 			}
+			return out
 		}
+		for j := range cl.Methods {
+			cl.Methods[j].Before = number(rapid.SliceOfN(memberGen, 0, 2).Draw(t, "membersBefore"))
+		}
+		// ... and after the last method (the only members of a class without methods)
+		cl.After = number(rapid.SliceOfN(memberGen, 0, 2).Draw(t, "membersAfter"))
 		return cl
 	})
 }
@@ -689,6 +780,12 @@ func (cl JClass) render() string {
 		for _, p := range m.Params {
 			need(p.Ann)
 		}
+		for _, st := range m.Stmts {
+			need(st.Text)
+		}
+	}
+	for _, x := range cl.After {
+		need(x)
 	}
 	var imps []string
 	for k := range imports {
@@ -736,10 +833,13 @@ func (cl JClass) render() string {
 			continue
 		}
 		b.WriteString(" {\n")
-		for _, s := range m.Stmts {
+		for si, s := range m.Stmts {
 			switch s.Kind {
 			case "filler":
-				b.WriteString("        " + s.Text + "\n")
+				b.WriteString("        " + strings.ReplaceAll(s.Text, "%d", fmt.Sprint(si)) + "\n")
+			case "lambda":
+				typ, text := lambdaText(s)
+				fmt.Fprintf(&b, "        %s fn%d = %s;\n", typ, si, text)
 			case "ifreturn":
 				if s.Bare {
 					fmt.Fprintf(&b, "        if (%s) %s\n", s.Cond, returnText(s.Expr))
@@ -764,6 +864,9 @@ func (cl JClass) render() string {
 			b.WriteString("        " + returnText(m.Last) + "\n")
 		}
 		b.WriteString("    }\n")
+	}
+	for _, x := range cl.After {
+		b.WriteString("\n    " + x + "\n")
 	}
 	b.WriteString("}\n")
 	return b.String()
@@ -820,7 +923,8 @@ func expectEval(c EvalCase) evalWant {
 				}
 			}
 			for _, s := range m.Stmts {
-				if s.Kind != "filler" && (nullKinds[s.Expr] || nullKinds[s.Else]) {
+				// fillers do not return; the returns of a lambda are not returns of the method
+				if s.Kind != "filler" && s.Kind != "lambda" && (nullKinds[s.Expr] || nullKinds[s.Else]) {
 					isNull = true
 				}
 			}
@@ -989,6 +1093,22 @@ func evalCLI(dir string, w evalWant) string {
 	return ""
 }
 
+func memberLabels(set map[string]bool, text string) {
+	if !memberHasLambda(text) {
+		return
+	}
+	set["lambda_in_field_or_initialiser"] = true
+	if strings.Contains(text, "{ java.util.function") {
+		set["lambda_in_initialiser_block"] = true
+	}
+	if memberLambdaReturnsNull(text) {
+		set["lambda_member_returns_null"] = true
+	}
+	if !strings.Contains(text, "return") {
+		set["expression_lambda"] = true
+	}
+}
+
 func classifyEval(c EvalCase, w evalWant) pbt.Verdict {
 	v := pbt.Verdict{}
 	set := map[string]bool{}
@@ -1101,6 +1221,29 @@ func classifyEval(c EvalCase, w evalWant) pbt.Verdict {
 				if strings.HasPrefix(x, "@") {
 					set["annotated_field_before_method"] = true
 				}
+				memberLabels(set, x)
+				if memberLambdaReturnsNull(x) && !w.nullable[cl.Pkg+"."+cl.Name+"."+m.Name] {
+					set["null_returning_lambda_member_before_a_method_that_is_not_nullable"] = true
+				}
+			}
+			for _, s := range m.Stmts {
+				switch {
+				case s.Kind == "lambda":
+					set["lambda_in_method_body"] = true
+					if s.Cond == "expr" {
+						set["expression_lambda"] = true
+					}
+					if lambdaReturnsNull(s) {
+						set["lambda_in_method_returns_null"] = true
+						if !w.nullable[cl.Pkg+"."+cl.Name+"."+m.Name] {
+							set["not_nullable_although_a_lambda_in_it_returns_null"] = true
+						}
+					}
+				case s.Kind == "filler" && strings.HasPrefix(s.Text, "@"):
+					set["annotated_local_variable"] = true
+				case s.Kind == "filler" && strings.Contains(s.Text, "null"):
+					set["null_literal_in_non_return_statement"] = true
+				}
 			}
 			if m.Generic {
 				set["generic_method"] = true
@@ -1133,6 +1276,15 @@ func classifyEval(c EvalCase, w evalWant) pbt.Verdict {
 			if len(m.Params) >= 4 {
 				set["params>=4"] = true
 			}
+		}
+	}
+	for _, cl := range c.Classes {
+		for _, x := range cl.After {
+			set["members_after_last_method"] = true
+			if len(cl.Methods) == 0 {
+				set["members_in_class_without_methods"] = true
+			}
+			memberLabels(set, x)
 		}
 	}
 	if len(c.Classes) >= 2 {
@@ -1371,10 +1523,11 @@ func names(deps []core_domain.CodeDataStruct) []string {
 
 func init() {
 	pbt.SetProperty("C18")
-	pbt.Describe("count: rapid-generated code models (own generator: 1-5 classes whose simple names are their own or drawn from a small pool so that one name recurs in several packages; packages a, b, a.b, ab, bc, x.a ... that are suffixes/prefixes of each other; methods m, m0, m1, m10, run (no overloads), optional constructor; 0-5 calls per method to a declared method, to a pooled method name on a declared class (declared there or only on a namesake), to a declared method's class and name under another package, to external classes named like project ones, with an empty receiver, with a receiver without package, in constructor form; recorded calls repeated 0-3 times to raise multiplicities); oracle: per declared method the number of call sites whose full name equals it, absent when 0, sum == resolving sites; a second BuildCallMap over the same model gives the same map; string_helper.SortWord (the order `coca count` lists) applied three times to the map lists every entry once and in the same order each time; about 1 case in 40 also runs `coca count` twice on the same deps.json (identical stdout, table rows == reference). evaluate: generated Java projects (1-4 classes, one per file, flat or src/main/java layout, packages incl. com.acme.util / org.demo.service.utils; class names with the word Util, Utils, Service in front, in the middle, at the end or absent; a class may occur once more, methods included, in another package; no constructors, no interfaces; 0-5 methods with modifiers in drawn permutations of subsets of {public|private|protected, static, final, synchronized} or {public|protected, abstract} in abstract classes; 1 method in 6 generic (`<T>` between modifiers and return type); an optional annotation before or between the modifiers: @Nullable, @CheckForNull, both, @Nullable(), @javax.annotation.Nullable / @javax.annotation.CheckForNull, or one that is not a nullability annotation (@Deprecated, @SuppressWarnings, @NonNull, @NotNullable, @NullableDecl); parameters that carry @Nullable/@CheckForNull themselves; fields (annotated, static, initialised with null or \"null\") and initialiser blocks between the methods; bodies of 0-3 statements (filler, if-return with or without braces, a return inside a for / while loop, a catch clause or a switch group, if-else-return) and a closing return whose expressions are null, literals, a field, conditional expressions with or without a null branch, and expressions that mention null without being able to return it (value == null, value != null ? value : \"d\", \"null\", a variable named nullable, String.valueOf(value == null), value == null ? 0 : count)), every file validated with the shipped ANTLR parser; analysed with JavaIdentifierApp + JavaFullApp + evaluate.Analyser as `coca analysis`/`coca evaluate` do; oracle from the description: ClassCount, MethodCount, StaticMethodCount (modifier set contains static), UtilsCount (by class name), Nullable.Items as a duplicate-free set; a second Analyser.Analysis on the same two lists gives the same numbers and the same set; 1 case in 10 also runs the two CLI commands and reads the stdout table. overloads: one class of 2-6 methods named from a pool of three names (same-named methods get parameter lists of different lengths), analysed twice, with its methods in the drawn order and in a drawn permutation of it; oracle: class / method / static counts as above (every overload is a method); a path none of whose overloads is nullable is absent from Nullable.Items, a path with k >= 1 nullable overloads is listed once or k times, and both orders give the same list as a multiset. concept: 1-4 classes x 0-5 methods named by 1-5 words (domain words, the tool's tech stop words, the tool's English stop words) in camelCase, 1 name in 8 PascalCase, 1 in 8 with one word replaced by an acronym in capitals (XML, URL, ID, BY ...), up to two method names repeated in the same or another class; oracle: sum of reported counts == number of words whose lower-case form is not in ENGLISH_STOP_WORDS u TechStopWords; 1 case in 50 through `coca concept`. Non-trivial: count = a method with >= 2 resolving sites and an unresolved site; evaluate = a static method whose static is not the last modifier or a return of null followed by a non-null return; overloads = two nullable overloads with another nullable method written between them in one of the two orders, and the order changed; concept = stop words and non-stop words both present.",
+	pbt.Describe("count: rapid-generated code models (own generator: 1-5 classes whose simple names are their own or drawn from a small pool so that one name recurs in several packages; packages a, b, a.b, ab, bc, x.a ... that are suffixes/prefixes of each other; methods m, m0, m1, m10, run (no overloads), optional constructor; 0-5 calls per method to a declared method, to a pooled method name on a declared class (declared there or only on a namesake), to a declared method's class and name under another package, to external classes named like project ones, with an empty receiver, with a receiver without package, in constructor form; recorded calls repeated 0-3 times to raise multiplicities); oracle: per declared method the number of call sites whose full name equals it, absent when 0, sum == resolving sites; a second BuildCallMap over the same model gives the same map; string_helper.SortWord (the order `coca count` lists) applied three times to the map lists every entry once and in the same order each time; about 1 case in 40 also runs `coca count` twice on the same deps.json (identical stdout, table rows == reference). evaluate: generated Java projects (1-4 classes, one per file, flat or src/main/java layout, packages incl. com.acme.util / org.demo.service.utils; class names with the word Util, Utils, Service in front, in the middle, at the end or absent; a class may occur once more, methods included, in another package; no constructors, no interfaces; 0-5 methods with modifiers in drawn permutations of subsets of {public|private|protected, static, final, synchronized} or {public|protected, abstract} in abstract classes; 1 method in 6 generic (`<T>` between modifiers and return type); an optional annotation before or between the modifiers: @Nullable, @CheckForNull, both, @Nullable(), @javax.annotation.Nullable / @javax.annotation.CheckForNull, or one that is not a nullability annotation (@Deprecated, @SuppressWarnings, @NonNull, @NotNullable, @NullableDecl); parameters that carry @Nullable/@CheckForNull themselves; fields (annotated, static, initialised with null or \"null\") and initialiser blocks between the methods, after the last method and in classes without methods; among those members fields (plain, static final, @Nullable) and instance / static initialiser blocks that hold a lambda `() -> ...`, `s -> ...`, `(String s) -> ...` with a block body `{ return E; }`, `{ if (flag) { return E; } return E2; }` or an expression body, E drawn from everything a String method may return, null included: a lambda is not a method, so its returns make no method nullable, in particular not the method declared next; bodies of 0-3 statements (filler, statements that use the null literal without returning it: `value = null;`, `Object tmp = null;`, `if (value == null) {...}`, a local variable annotated @Nullable; a local variable initialised with a lambda of the same forms, whose returns are not the method's; if-return with or without braces, a return inside a for / while loop, a catch clause or a switch group, if-else-return) and a closing return whose expressions are null, literals, a field, conditional expressions with or without a null branch, and expressions that mention null without being able to return it (value == null, value != null ? value : \"d\", \"null\", a variable named nullable, String.valueOf(value == null), value == null ? 0 : count)), every file validated with the shipped ANTLR parser; analysed with JavaIdentifierApp + JavaFullApp + evaluate.Analyser as `coca analysis`/`coca evaluate` do; oracle from the description: ClassCount, MethodCount, StaticMethodCount (modifier set contains static), UtilsCount (by class name), Nullable.Items as a duplicate-free set; a second Analyser.Analysis on the same two lists gives the same numbers and the same set; 1 case in 10 also runs the two CLI commands and reads the stdout table. overloads: one class of 2-6 methods named from a pool of three names (same-named methods get parameter lists of different lengths), analysed twice, with its methods in the drawn order and in a drawn permutation of it; oracle: class / method / static counts as above (every overload is a method); a path none of whose overloads is nullable is absent from Nullable.Items, a path with k >= 1 nullable overloads is listed once or k times, and both orders give the same list as a multiset. concept: 1-4 classes x 0-5 methods named by 1-5 words (domain words, the tool's tech stop words, the tool's English stop words) in camelCase, 1 name in 8 PascalCase, 1 in 8 with one word replaced by an acronym in capitals (XML, URL, ID, BY ...), up to two method names repeated in the same or another class; oracle: sum of reported counts == number of words whose lower-case form is not in ENGLISH_STOP_WORDS u TechStopWords; 1 case in 50 through `coca concept`. Non-trivial: count = a method with >= 2 resolving sites and an unresolved site; evaluate = a static method whose static is not the last modifier or a return of null followed by a non-null return; overloads = two nullable overloads with another nullable method written between them in one of the two orders, and the order changed; concept = stop words and non-stop words both present.",
 		"evaluate: a null literal never occurs inside a returned expression other than as the returned value, a branch of a returned conditional expression, or an operand of == / != (e.g. not as a method argument: the repository's own fixture counts `return opt.orElse(null)` as returning null, the statement does not say); classes named with the word Util/Utils are the utility classes, whatever their package; in the evaluate sub-check method names are unique within a class; overloads are the subject of the overloads sub-check, which asserts only what both readings of 'each listed once' share (whether two nullable overloads are one entry or two is not settled by the statement)",
+		"evaluate: a method returns null when one of its own return statements does: a return inside a lambda leaves the lambda (Java semantics), so neither a lambda in a field / initialiser block nor one in a method body makes a method nullable; anonymous and nested classes are not generated (whether their methods and the classes themselves are counted is not settled by the statement)",
 		"evaluate: only the 'Type Count' and 'Level Total' columns of the `coca evaluate` table are compared (the percentage column of the Static Method row is computed from the utility-class count: observed, outside the statement); coca_reporter/evaluate.json is not read because it is written empty whenever a standard deviation is NaN",
-		"evaluate: generator feature switches (pbt.Excluded): return_mentions_null, generic_method, qualified_nullable_annotation",
+		"evaluate: generator feature switches (pbt.Excluded): return_mentions_null, generic_method, qualified_nullable_annotation, lambda_in_method_returns_null",
 		"concept: lower-case words are 2-12 letters (single-letter words are merged by the camel-case splitter), acronyms 2-5 capitals and never adjacent to another acronym, no digits or underscores: for those shapes the words of a name are not in doubt",
 		"count: no overloads and no class-level (field) calls in the models: the statement does not say how they count")
 	pbt.Register("count", 2000, 12000, genCount, checkCount)
